@@ -315,6 +315,19 @@ class LatCall(Monitor):
                       'a member', repr(exc), {'properties': token[1]})
 
 
+class _MyInt(int):
+    """A user subclass of int (what numpy-free numeric code or an ORM hands out)."""
+
+
+import enum as _enum
+
+
+class _Level(_enum.IntEnum):
+    L0 = 0
+    L1 = 1
+    L2 = 2
+
+
 def setup(concepts, spec):
     from .. import probes
     probes.install(['prime'])
@@ -362,6 +375,9 @@ def run_case(concepts, case, spec):
                 COL.count('str_keys')
             if k % 3 == 0:
                 call(ctx.__getitem__, gen.disguise(sub, rng), True)
+            if k % 5 == 2 and len(sub) <= 6 and len(ctx.objects) <= 400 and len(ctx.properties) <= 400:
+                call(ctx.__getitem__, common.reentrant_labels(sub, ctx))     # iterating the key queries the context
+                COL.count('reentrant_keys')
             if k % 4 == 0 and r is not RAISED:
                 try:   # feed the result back (idempotence on both sides)
                     if r[0]:
@@ -407,6 +423,13 @@ def run_case(concepts, case, spec):
     if n is not RAISED:
         for i in list(range(min(n, 40))) + [-1, -min(n, 3), n - 1]:
             call(lat.__getitem__, i)
+        # integers that are not exactly ``int``: an IntEnum member, an instance of a user subclass
+        for i in (0, 1 % n, n - 1, -1):
+            call(lat.__getitem__, _MyInt(i))
+        for lvl in _Level:
+            if lvl < n:
+                call(lat.__getitem__, lvl)
+        COL.count('int_subclass_indexes')
         call(lat.__getitem__, slice(0, min(n, 5)))
         call(lat.__getitem__, slice(None, None, 2))
         call(lat.__getitem__, slice(-2, None))
